@@ -105,8 +105,17 @@ class Ctx:
         for i, sc, r in pool.run_many(driver, scenarios, workers=workers, wall_timeout=wall):
             results[i] = r
         bad_status = [(i, r) for i, r in enumerate(results) if r.get('status') in ('crash',)]
-        if bad_status:
-            raise MachineryError('harness crash in %s: %s' % (family, bad_status[0][1].get('error')))
+        # an exception that escaped from the code under test at a place where no outcome of the property allows
+        # one (the drivers record every allowed outcome) is a violation; anything else is a harness failure
+        for i, r in bad_status:
+            if not from_code_under_test(r.get('error', '')):
+                raise MachineryError('harness crash in %s: %s' % (family, r.get('error')))
+        for i, r in bad_status:
+            r.setdefault('events', [])
+            self.cov['families'].setdefault(family, {'executions': 0, 'stuck_nondeterministic': 0, 'violating': 0,
+                                                     'hangs': 0})['violating'] += 1
+            self.violation(self.prop, self.prop + '_UnexpectedException', 0, scenarios[i], r, family, driver, known_match,
+                           component, trace_module)
         ok_idx = [i for i, r in enumerate(results) if r.get('status') in ('ok', 'hang')]
         stuck = len(results) - len(ok_idx)
         verdicts, st = tlc.validate_batch(component, trace_module, [results[i]['events'] for i in ok_idx],
@@ -275,11 +284,25 @@ def replayable(sc, r):
     return s
 
 
+def from_code_under_test(tb):
+    """Was this exception raised by (or underneath) the aiuti sources - i.e. is there an aiuti frame after the
+    last frame of the harness in the traceback text?"""
+    frames = [f.replace('\\', '/') for f in re.findall(r'File "([^"]+)", line \d+', tb or '')]
+    last_h = max([i for i, f in enumerate(frames) if '/harness/' in f] or [-1])
+    return any('/aiuti/' in f for f in frames[last_h + 1:])
+
+
 def generic_replay(mod, prop, path):
     """Re-execute a recorded violation (scenario + exact schedule) on the current tree and
     re-validate it with TLC; exit status 1 iff the violation reproduces."""
     rep = json.load(open(path))
     r = pool.run_one(rep['driver'], rep['scenario'])
+    if r.get('status') == 'crash':
+        if from_code_under_test(r.get('error', '')):
+            print('replay: an exception escaped from the code under test:\n%s' % r.get('error', '')[-600:])
+            print('VIOLATION property=%s replay=%s clause=%s_UnexpectedException' % (prop, path, prop))
+            return 1
+        raise MachineryError('harness crash in replay: %s' % r.get('error'))
     comp = rep.get('component') or mod.COMP
     tm = rep.get('trace_module') or mod.TRACE
     verdicts, st = tlc.validate_batch(comp, tm, [r['events']])
